@@ -120,6 +120,16 @@ Lemma psv_get_set i (k : node -> node) :
   (forall n, tview (k n) = tview n) -> psv (do n <- get_node i; set_node i (k n))%W.
 Proof. intros H. apply (psv_modify_node i k H). Qed.
 
+Lemma raw_set_attribute_sv h attr v version w r w' :
+  raw_set_attribute T check_fn h attr v version w = Val (r, w') -> SV w w'.
+Proof.
+  unfold raw_set_attribute. intros H.
+  wnode H n Hn. wval H sp Hsp.
+  destruct sp as [[[[? ?] ?] ?]|]; [|winv H; apply SV_refl].
+  wval H ok Hok. destruct ok; [|winv H; apply SV_refl].
+  apply set_node_inv in H as (_ & ->). eapply sv_set_node; eauto.
+Qed.
+
 Lemma e_set_attribute_sv h attr v w r w' :
   e_set_attribute T check_fn LATEST h attr v w = Val (r, w') -> SV w w'.
 Proof.
